@@ -244,7 +244,10 @@ def production_coverage(ctx):
         for dialect, text in texts:
             p = parsers['smiV2' if dialect == 'v2' and len(text) % 2 else 'smiV1Relaxed']
             p.reset()
-            p.parse(text)
+            try:
+                p.parse(text)
+            except Exception:
+                rec.count('text-rejected')    # judged by the model search, not here: this facet only measures coverage
             rec.evaluated()
         for n in allrules:
             rec.count('rule.%s' % n, fired.get(n, 0))
